@@ -8,6 +8,16 @@ From C01 Require Import Generated Model.
 Import ListNotations.
 Open Scope Z_scope.
 
+Section Zip2.
+  Context (f : val -> val -> bool).
+  Fixpoint any2 (la lb : list val) : bool :=
+    match la, lb with x :: la', y :: lb' => f x y || any2 la' lb' | _, _ => false end.
+  Fixpoint all2 (la lb : list val) : bool :=
+    match la, lb with x :: la', y :: lb' => f x y && all2 la' lb' | _, _ => true end.
+  Fixpoint same2 (la lb : list val) : bool :=
+    match la, lb with [], [] => true | x :: la', y :: lb' => f x y && same2 la' lb' | _, _ => false end.
+End Zip2.
+
 (* ------------------------------------------------------------------ atomic verbs
    s2 f a b : the element-wise extension of the scalar function f through any nesting
    depth with atom-to-list extension; lists of different length do not conform (Err). *)
@@ -22,12 +32,7 @@ Fixpoint s2 (f : val -> val -> res) (a b : val) {struct a} : res :=
   | VL la =>
       match b with
       | VL lb =>
-          okl ((fix go (la lb : list val) : result (list val) :=
-                  match la, lb with
-                  | [], [] => Ok []
-                  | x :: la', y :: lb' => bind (s2 f x y) (fun z => bind (go la' lb') (fun zs => Ok (z :: zs)))
-                  | _, _ => Err
-                  end) la lb)
+          okl (rzip (s2 f) la lb)
       | _ => okl (rmap (fun x => s2 f x b) la)
       end
   | _ => sright f a b
@@ -43,18 +48,14 @@ Fixpoint s1 (f : val -> res) (a : val) : res :=
 Fixpoint conformable (a b : val) {struct a} : bool :=
   match a, b with
   | VL la, VL lb =>
-      (fix go (la lb : list val) : bool :=
-         match la, lb with
-         | [], [] => true
-         | x :: la', y :: lb' => conformable x y && go la' lb'
-         | _, _ => false
-         end) la lb
+      same2 conformable la lb
   | _, _ => true
   end.
 
 (* every pair of scalars the extension meets satisfies p *)
 Fixpoint all_right (p : val -> val -> bool) (a b : val) {struct b} : bool :=
   match b with
+  | VL [] => is_num a                 (* [] is the empty numeric vector *)
   | VL lb => forallb (all_right p a) lb
   | _ => p a b
   end.
@@ -63,12 +64,8 @@ Fixpoint all_pairs (p : val -> val -> bool) (a b : val) {struct a} : bool :=
   | VL la =>
       match b with
       | VL lb =>
-          (fix go (la lb : list val) : bool :=
-             match la, lb with
-             | x :: la', y :: lb' => all_pairs p x y && go la' lb'
-             | _, _ => true
-             end) la lb
-      | _ => forallb (fun x => all_pairs p x b) la
+          all2 (all_pairs p) la lb
+      | _ => match la with [] => is_num b | _ => forallb (fun x => all_pairs p x b) la end
       end
   | _ => all_right p a b
   end.
@@ -76,6 +73,13 @@ Fixpoint all_leaves (p : val -> bool) (a : val) : bool :=
   match a with
   | VL la => forallb (all_leaves p) la
   | _ => p a
+  end.
+
+Fixpoint has_empty_list (a : val) : bool :=
+  match a with
+  | VL [] => true
+  | VL la => existsb has_empty_list la
+  | _ => false
   end.
 
 Definition both_num (a b : val) : bool := is_num a && is_num b.
@@ -89,13 +93,6 @@ Definition same_kind (a b : val) : bool :=
   | _, _ => false
   end.
 
-(* the two array shapes NumPy sees *)
-Definition npshape (v : val) : option (list nat) :=
-  match v with
-  | VL l => match rshape v with Some s => Some s | None => Some [List.length l] end
-  | _ => None
-  end.
-
 (* known-finding class "broadcast": somewhere in the recursion two list operands meet whose NumPy
    shapes differ, so NumPy aligns trailing axes instead of pairing members (or raises). *)
 Fixpoint kb_np (a b : val) {struct a} : bool :=
@@ -105,14 +102,17 @@ Fixpoint kb_np (a b : val) {struct a} : bool :=
       | VL lb =>
           if shape_eqb (npshape a) (npshape b)
           then (if is_rect a && is_rect b then false
-                else (fix go (la lb : list val) : bool :=
-                        match la, lb with
-                        | x :: la', y :: lb' => kb_np x y || go la' lb'
-                        | _, _ => false
-                        end) la lb)
+                else any2 (kb_np) la lb)
           else true
       | _ => if is_rect a then false else existsb (fun x => kb_np x b) la
       end
+  | _ => false
+  end.
+
+(* the NumPy array of v has two or more dimensions (also for object arrays whose members are all lists of one length) *)
+Definition ndim_gt1 (v : val) : bool :=
+  match v with
+  | VL l => (1 <? npdepth v)%nat || (negb (is_rect v) && all_lists_same_len l)
   | _ => false
   end.
 
@@ -123,11 +123,7 @@ Fixpoint kb_vec (a b : val) {struct a} : bool :=
       match b with
       | VL lb =>
           if is_rect a && is_rect b then negb (shape_eqb (rshape a) (rshape b))
-          else (fix go (la lb : list val) : bool :=
-                  match la, lb with
-                  | x :: la', y :: lb' => kb_vec x y || go la' lb'
-                  | _, _ => false
-                  end) la lb
+          else any2 (kb_vec) la lb
       | _ => if is_rect a then false else existsb (fun x => kb_vec x b) la
       end
   | _ => false
@@ -209,12 +205,7 @@ Definition members (b : val) : list val := match b with VL l => l | other => [ot
 Fixpoint s_same (a b : val) {struct a} : bool :=
   match a, b with
   | VL la, VL lb =>
-      (fix go (la lb : list val) : bool :=
-         match la, lb with
-         | [], [] => true
-         | x :: la', y :: lb' => s_same x y && go la' lb'
-         | _, _ => false
-         end) la lb
+      same2 s_same la lb
   | VL _, _ | _, VL _ => false
   | VC x, VC y => x =? y
   | VS s, VS t => zs_eqb s t
@@ -227,11 +218,7 @@ Fixpoint s_same (a b : val) {struct a} : bool :=
 Fixpoint k_close (a b : val) {struct a} : bool :=
   match a, b with
   | VL la, VL lb =>
-      (fix go (la lb : list val) : bool :=
-         match la, lb with
-         | x :: la', y :: lb' => k_close x y || go la' lb'
-         | _, _ => false
-         end) la lb
+      any2 (k_close) la lb
   | VL _, _ | _, VL _ => false
   | _, _ => is_num a && is_num b && negb (num_eqb a b) && isclose a b
   end.
@@ -239,11 +226,7 @@ Fixpoint k_close (a b : val) {struct a} : bool :=
 Fixpoint match_kinds_ok (a b : val) {struct a} : bool :=
   match a, b with
   | VL la, VL lb =>
-      (fix go (la lb : list val) : bool :=
-         match la, lb with
-         | x :: la', y :: lb' => match_kinds_ok x y && go la' lb'
-         | _, _ => true
-         end) la lb
+      all2 (match_kinds_ok) la lb
   | VL _, VS _ | VS _, VL _ => false      (* a list of characters against a string: not settled by the reference *)
   | VL _, _ | _, VL _ => true
   | _, _ => same_kind a b
@@ -376,6 +359,13 @@ Definition s_dyad (f : string) (a b : val) : res :=
              Ok (VL (tab n' (fun i => VS (tab m' (fun k => ix 0 s ((i * m' + k) mod zlen s))))))
          | _, _ => Err
          end)
+    | VC c =>
+        (match a, shape with
+         | VI n, _ => if n =? 0 then Ok b else Ok (VS (s_fill 0 n [c]))
+         | _, [n] => Ok (VS (s_fill 0 n [c]))
+         | _, [n; m] => Ok (VL (tab n (fun _ => VS (s_fill 0 m [c]))))
+         | _, _ => Err
+         end)
     | _ =>
         let src := members b in
         match a with
@@ -414,13 +404,13 @@ Definition dom_dyad (f : string) (a b : val) : bool :=
   if fis f "eval_dyad_split" then sizes_ok a && is_list_or_str b else
   if fis f "eval_dyad_cut" then
     match a, b with
-    | VI n, VL l => (0 <=? n) && (n <=? zlen l)
-    | VI n, VS s => (0 <=? n) && (n <=? zlen s)
-    | VL (x :: r), VL l => (npdepth a =? 1)%nat && forallb is_int (x :: r) && incr_within 0 (zlen l) (zints a)
-    | VL (x :: r), VS s => (npdepth a =? 1)%nat && forallb is_int (x :: r) && incr_within 0 (zlen s) (zints a)
+    | VI n, VL l => (0 <=? n) && (n <=? zlen l) && (0 <? zlen l)
+    | VI n, VS s => (0 <=? n) && (n <=? zlen s) && (0 <? zlen s)
+    | VL (x :: r), VL l => (npdepth a =? 1)%nat && forallb is_int (x :: r) && incr_within 0 (zlen l) (zints a) && (0 <? zlen l)
+    | VL (x :: r), VS s => (npdepth a =? 1)%nat && forallb is_int (x :: r) && incr_within 0 (zlen s) (zints a) && (0 <? zlen s)
     | _, _ => false
     end else
-  if fis f "eval_dyad_join" then true else
+  if fis f "eval_dyad_join" then (match a, b with VC _, VC _ => false | _, _ => true end) else
   if fis f "eval_dyad_at_index" then
     let n := match a with VL l => zlen l | VS s => zlen s | _ => 0 end in
     is_list_or_str a &&
@@ -432,7 +422,7 @@ Definition dom_dyad (f : string) (a b : val) : bool :=
   if fis f "eval_dyad_find" then
     match a, b with
     | VS _, VC _ | VS _, VS _ => true
-    | VL _, _ => true
+    | VL l, _ => forallb (fun x => match_kinds_ok x b || negb (is_strlike x && is_strlike b)) l
     | _, _ => false
     end else
   if fis f "eval_dyad_match" then match_kinds_ok a b else
@@ -441,6 +431,7 @@ Definition dom_dyad (f : string) (a b : val) : bool :=
     | VS s => shape_ok a (zlen s) && (negb (zlen s =? 0)) && (List.length (zints a) <=? 2)%nat
     | VL l => shape_ok a (zlen l) && (negb (zlen l =? 0)) &&
               (forallb (fun x => negb (is_arr x)) l || (List.length (zints a) =? 1)%nat)
+    | VC _ => shape_ok a 1 && forallb (fun z => 0 <=? z) (zints a) && (List.length (zints a) <=? 2)%nat
     | _ => shape_ok a 1 && forallb (fun z => 0 <=? z) (zints a)
     end else
   false
@@ -456,12 +447,7 @@ Fixpoint val_eqb (a b : val) {struct a} : bool :=
   | VY s, VY t => zs_eqb s t
   | VU, VU => true
   | VL la, VL lb =>
-      (fix go (la lb : list val) : bool :=
-         match la, lb with
-         | [], [] => true
-         | x :: la', y :: lb' => val_eqb x y && go la' lb'
-         | _, _ => false
-         end) la lb
+      same2 val_eqb la lb
   | _, _ => false
   end.
 
@@ -477,31 +463,53 @@ Definition k_dyad (f : string) (a b : val) : string :=
       else (if kb_np a b then "broadcast" else "")
   | None =>
   if fis f "eval_dyad_take" then
-    (match a with VI n => if (1 <? npdepth b)%nat && (zlen (members b) <? Z.abs n) then "take-matrix" else "" | _ => "" end) else
+    (match a with VI n => if ndim_gt1 b && ((zlen (members b) <? Z.abs n) || (array_size b =? 0)) then "take-matrix" else "" | _ => "" end) else
   if fis f "eval_dyad_rotate" then
-    (if (1 <? npdepth b)%nat && negb rotate_uses_axis0 then "rotate-matrix" else "") else
+    (if ndim_gt1 b && negb rotate_uses_axis0 then "rotate-matrix" else "") else
   if fis f "eval_dyad_split" then
     (match a with
      | VI n => if negb split_by_segment_size && (n <? zlen (match b with VS s => chars s | _ => members b end)) then "split-even" else ""
      | VL [VI n] => if negb split_by_segment_size && (n <? zlen (match b with VS s => chars s | _ => members b end)) then "split-even" else ""
      | _ => "" end) else
-  if fis f "eval_dyad_join" then (if negb (res_normal (s_dyad f a b)) then "homogenise" else "") else
+  if fis f "eval_dyad_join" then
+    (let r := (members a ++ members b)%list in
+     if all_lists_same_len r && negb (forallb (fun x => shape_eqb (npshape x) (npshape (hd VU r))) r) then "join-ragged"
+     else if negb (res_normal (s_dyad f a b)) then "homogenise" else "") else
   if fis f "eval_dyad_at_index" then (if negb (res_normal (s_dyad f a b)) then "homogenise" else "") else
   if fis f "eval_dyad_match" then (if k_close a b then "match-tolerance" else "") else
   if fis f "eval_dyad_find" then
     (match a, b with
      | VL l, VL _ => if existsb (fun x => k_close x b) l then "match-tolerance" else ""
-     | VL l, _ => if (1 <? npdepth a)%nat || existsb is_arr l then "find-nested" else ""
+     | VL l, _ => if (1 <? npdepth a)%nat || existsb is_arr l then "find-nested"
+                  else if existsb (fun x => match x, b with VY _, VY _ => s_same x b | _, _ => false end) l then "find-symbol" else ""
      | _, _ => "" end) else
   if fis f "eval_dyad_reshape" then
     (match b with
      | VY _ => if reshape_guards_symbols then "" else "reshape-symbol"
+     | VC _ => (match a with VI 0 => "reshape-symbol" | _ => "" end)
      | VL l => if existsb is_arr l then "reshape-nested" else ""
      | _ => "" end) else
   ""
   end.
 
 (* ------------------------------------------------------------------ monads *)
+(* Floor: an integer when the floored value fits the integer range, otherwise the (already integral) real *)
+Definition floor_fits (v : val) : bool :=
+  match v with
+  | VI _ => true
+  | VR r => match rfloor_exact r with Some z => (- two63 <=? z) && (z <? two63) | None => false end
+  | _ => false
+  end.
+Definition s_floor (a : val) : res :=
+  match a with
+  | VI x => Ok (VI x)
+  | VR r => match rfloor_exact r with
+            | Some z => if (- two63 <=? z) && (z <? two63) then Ok (VI z) else Ok (VR r)
+            | None => Err
+            end
+  | _ => Unmod
+  end.
+
 Definition s_monad (f : string) (a : val) : res :=
   if fis f "eval_monad_atom" then Ok (b2v (match a with VL (_ :: _) | VS (_ :: _) => false | _ => true end)) else
   if fis f "eval_monad_char" then s1 sc_char a else
@@ -513,7 +521,7 @@ Definition s_monad (f : string) (a : val) : res :=
      | _ => Err end) else
   if fis f "eval_monad_first" then
     (match a with VL (x :: _) => Ok x | VS (c :: _) => Ok (VC c) | _ => Ok a end) else
-  if fis f "eval_monad_floor" then s1 sc_floor a else
+  if fis f "eval_monad_floor" then s1 s_floor a else
   if fis f "eval_monad_list" then (match a with VC c => Ok (VS [c]) | _ => Ok (VL [a]) end) else
   if fis f "eval_monad_negate" then s1 sc_neg a else
   if fis f "eval_monad_reciprocal" then (if negb (is_arr a) && is_zero a then Ok VU else s1 sc_recip a) else
@@ -525,13 +533,6 @@ Definition s_monad (f : string) (a : val) : res :=
      | VS s => Ok (VI (zlen s)) | VL l => Ok (VI (zlen l)) | _ => Err end) else
   Err.
 
-Definition floor_fits (v : val) : bool :=
-  match v with
-  | VI _ => true
-  | VR (S754_finite _ m e) => e + Z.log2 (Zpos m) <? 62
-  | VR (S754_zero _) => true
-  | _ => false
-  end.
 
 Definition dom_monad (f : string) (a : val) : bool :=
   if fis f "eval_monad_atom" then true else
@@ -540,7 +541,7 @@ Definition dom_monad (f : string) (a : val) : bool :=
   if fis f "eval_monad_expand_where" then
     (match a with VI n => 0 <=? n | VL l => forallb (fun v => match v with VI n => 0 <=? n | _ => false end) l | _ => false end) else
   if fis f "eval_monad_first" then true else
-  if fis f "eval_monad_floor" then all_leaves is_num a else
+  if fis f "eval_monad_floor" then all_leaves (fun v => match v with VI _ => true | VR r => match rfloor_exact r with Some _ => true | None => false end | _ => false end) a else
   if fis f "eval_monad_list" then true else
   if fis f "eval_monad_negate" then all_leaves is_num a else
   if fis f "eval_monad_reciprocal" then (negb (is_arr a) && is_num a) || all_leaves (fun v => is_num v && negb (is_zero v)) a else
@@ -551,6 +552,8 @@ Definition dom_monad (f : string) (a : val) : bool :=
 Definition k_monad (f : string) (a : val) : string :=
   if negb (is_normal a) then "homogenise" else
   if fis f "eval_monad_first" then (match a with VS (_ :: _) => "first-of-string" | _ => "" end) else
+  if fis f "eval_monad_char" then (if has_empty_list a then "char-of-empty" else "") else
+  if fis f "eval_monad_expand_where" then (match a with VL [] => "expand-empty" | _ => "" end) else
   if fis f "eval_monad_floor" then (if all_leaves floor_fits a then "" else "floor-overflow") else
   if fis f "eval_monad_reverse" then (if negb reverse_guards_atoms && negb (is_list_or_str a) then "reverse-atom" else "") else
   if fis f "eval_monad_list" then (if negb (res_normal (s_monad f a)) then "homogenise" else "") else
